@@ -376,6 +376,11 @@ pub struct Inv {
     pub form: usize,
     /// listed nodes in listing order: (key, None = list omitted, Some(targets))
     pub nodes: Vec<(u8, Option<Vec<u8>>)>,
+    /// Some(NAME): every node and edge value is written as the caller-side
+    /// constant `NAME` (value 77) instead of a literal - macro hygiene does not
+    /// cover items, so an item the macro body declares under the same name
+    /// would capture the caller's expression
+    pub named: Option<String>,
 }
 
 impl Inv {
@@ -400,7 +405,7 @@ impl Inv {
         let mut ev = 0i64;
         for (k, list) in &self.nodes {
             if has_n {
-                s += &format!("({}, {}) => ", k, Self::node_val(*k));
+                s += &format!("({}, {}) => ", k, match &self.named { Some(nm) => nm.clone(), None => Self::node_val(*k).to_string() });
             } else {
                 s += &format!("({}) => ", k);
             }
@@ -409,9 +414,13 @@ impl Inv {
                     .iter()
                     .map(|t| {
                         ev += 1;
+                        let shown = match &self.named { Some(nm) => nm.clone(), None => ev.to_string() };
+                        if self.named.is_some() {
+                            ev = 77;
+                        }
                         edges.push((*k, *t, if has_e { ev } else { 0 }));
                         if has_e {
-                            format!("({}, {})", t, ev)
+                            format!("({}, {})", t, shown)
                         } else {
                             format!("{}", t)
                         }
@@ -436,7 +445,7 @@ impl Inv {
         for k in &listed {
             let own: Vec<String> = edges.iter().filter(|e| e.0 == *k).map(|e| format!("({}, {})", e.1, e.2)).collect();
             let inc: Vec<String> = edges.iter().filter(|e| e.1 == *k).map(|e| format!("({}, {})", e.0, e.2)).collect();
-            nodes.push(format!("({}u8, {}i64, vec![{}], vec![{}])", k, if has_n { Self::node_val(*k) } else { 0 }, own.join(", "), inc.join(", ")));
+            nodes.push(format!("({}u8, {}i64, vec![{}], vec![{}])", k, if has_n { if self.named.is_some() { 77 } else { Self::node_val(*k) } } else { 0 }, own.join(", "), inc.join(", ")));
         }
         format!("Exp::Graph({}, vec![{}])", listed.len(), nodes.join(", "))
     }
@@ -464,6 +473,22 @@ fn edge_list_options(keys: &[u8], max_len: usize) -> Vec<Option<Vec<u8>>> {
 
 pub const MACROS: [&str; 4] = ["digraph", "ungraph", "sync_digraph", "sync_ungraph"];
 
+/// Names of `const` / `static` items declared inside the macro definitions of
+/// the working tree (there are none in the unchanged library).
+pub fn macro_item_names() -> Vec<String> {
+    let mut names: Vec<String> = Vec::new();
+    for m in MACROS {
+        let src = std::fs::read_to_string(format!("{}/src/{}/graph_macros.rs", repo_dir(), m)).unwrap_or_default();
+        let toks: Vec<&str> = src.split(|c: char| !(c.is_alphanumeric() || c == '_')).filter(|t| !t.is_empty()).collect();
+        for w in toks.windows(2) {
+            if (w[0] == "const" || w[0] == "static") && w[1].chars().next().map_or(false, |c| c.is_ascii_uppercase()) && !names.contains(&w[1].to_string()) {
+                names.push(w[1].to_string());
+            }
+        }
+    }
+    names
+}
+
 pub fn c14_invocations(thorough: bool) -> Vec<Inv> {
     let mut out = Vec::new();
     for mac in MACROS {
@@ -476,7 +501,7 @@ pub fn c14_invocations(thorough: bool) -> Vec<Inv> {
                     loop {
                         let total: usize = idx.iter().map(|i| opts[*i].as_ref().map_or(0, |l| l.len())).sum();
                         if thorough || n <= 2 || total <= 2 {
-                            out.push(Inv { mac, form, nodes: order.iter().zip(idx.iter()).map(|(k, i)| (*k, opts[*i].clone())).collect() });
+                            out.push(Inv { mac, form, nodes: order.iter().zip(idx.iter()).map(|(k, i)| (*k, opts[*i].clone())).collect(), named: None });
                         }
                         let mut p = 0;
                         loop {
@@ -505,8 +530,13 @@ pub fn c14_invocations(thorough: bool) -> Vec<Inv> {
                 let fan_in: Vec<(u8, Option<Vec<u8>>)> = (0..n).rev().map(|k| (k, if k != 0 { Some(vec![0]) } else { None })).collect();
                 let long: Vec<(u8, Option<Vec<u8>>)> = (0..n).map(|k| (k, if k == 10 { Some((0..n).chain((0..n).rev()).collect()) } else { None })).collect();
                 for nodes in [chain, cycle, fan, fan_in, long] {
-                    out.push(Inv { mac, form, nodes });
+                    out.push(Inv { mac, form, nodes, named: None });
                 }
+            }
+            // value expressions that name a caller-side constant called like an item the macro body declares
+            for nm in macro_item_names() {
+                out.push(Inv { mac, form, nodes: vec![(0, Some(vec![1, 0])), (1, Some(vec![0]))], named: Some(nm.clone()) });
+                out.push(Inv { mac, form, nodes: vec![(0, None), (1, Some(vec![0, 1, 0]))], named: Some(nm) });
             }
             // an edge naming an unlisted key (7), at every position of a short list
             for n in 1..=2u8 {
@@ -514,7 +544,7 @@ pub fn c14_invocations(thorough: bool) -> Vec<Inv> {
                 for bad_node in 0..n {
                     for list in [vec![7u8], vec![0, 7], vec![7, 0]] {
                         let nodes = keys.iter().map(|k| (*k, if *k == bad_node { Some(list.clone()) } else { Some(vec![0]) })).collect();
-                        out.push(Inv { mac, form, nodes });
+                        out.push(Inv { mac, form, nodes, named: None });
                     }
                 }
             }
@@ -745,7 +775,8 @@ pub fn c14(job: &Job, out: &mut Out) {
         b.1.push(entry);
     }
     for (bi, (fns, entries)) in bins.iter().enumerate() {
-        let src = format!("#![allow(unused_imports, unused_variables, dead_code, unused_mut)]\nuse c14_cases::*;\nuse gdsl::*;\n{}\nfn main() {{\n    run(&[\n        {}\n    ]);\n}}\n", fns, entries.join(",\n        "));
+        let consts: String = macro_item_names().iter().map(|n| format!("const {}: i64 = 77;\n", n)).collect();
+        let src = format!("#![allow(unused_imports, unused_variables, dead_code, unused_mut)]\nuse c14_cases::*;\nuse gdsl::*;\n{}{}\nfn main() {{\n    run(&[\n        {}\n    ]);\n}}\n", consts, fns, entries.join(",\n        "));
         std::fs::write(gen.join(format!("src/bin/shard_{}.rs", bi)), src).expect("write");
     }
     std::fs::write(gen.join("src/bin/helpers.rs"), c14_helper_program()).expect("write");
@@ -755,7 +786,13 @@ pub fn c14(job: &Job, out: &mut Out) {
         // (the property quantifies over every well-formed invocation), but
         // it cannot be told apart from a broken harness automatically:
         let err = String::from_utf8_lossy(&o.stderr).to_string();
-        let first: Vec<&str> = err.lines().filter(|l| l.starts_with("error") || l.contains("-->")).take(8).collect();
+        let first: Vec<&str> = {
+            // (the bins are compiled in parallel: sorted, so that the text is the same on every run)
+            let mut v: Vec<&str> = err.lines().filter(|l| l.starts_with("error[") || l.starts_with("error:")).collect();
+            v.sort();
+            v.dedup();
+            v.into_iter().filter(|l| !l.contains("could not compile") && !l.contains("aborting due to")).take(4).collect()
+        };
         out.stats.inc("evaluations");
         out.report(Violation {
             property: job.property.clone(),
